@@ -27,10 +27,11 @@ m = {
  "notes": "See DESIGN.md. `./check <Cxx> quick|thorough`; evidence in evidence/<Cxx>.json; replays in replays/.",
  "not_applicable": [],
 }
+enabled = set(open(os.path.join(ROOT, "tools", "enabled.txt")).read().split())
 for p in props:
     pid = p["id"]
     c = checks.get(pid)
-    if not c or c.get("disabled"):
+    if not c or c.get("disabled") or pid not in enabled:
         m["not_applicable"].append({"property_id": pid, "reason": (c or {}).get("na_reason", "check not built yet in this round (model and driver pending); see DESIGN.md section 10")})
         continue
     m["checks"].append({
